@@ -559,6 +559,23 @@ mod exec {
         }
     }
 
+    // Like WriteAdapter below, the read adapters must close their pipe before
+    // Popen::drop() waits for the process: a child that is still writing
+    // output nobody will read any more would otherwise block forever, and
+    // the wait with it.
+
+    impl Drop for ReadOutAdapter {
+        fn drop(&mut self) {
+            self.0.stdout.take();
+        }
+    }
+
+    impl Drop for ReadErrAdapter {
+        fn drop(&mut self) {
+            self.0.stderr.take();
+        }
+    }
+
     #[derive(Debug)]
     struct WriteAdapter(Popen);
 
@@ -1125,6 +1142,15 @@ mod pipeline {
         fn read(&mut self, buf: &mut [u8]) -> io::Result<usize> {
             let last = self.0.last_mut().unwrap();
             last.stdout.as_mut().unwrap().read(buf)
+        }
+    }
+
+    impl Drop for ReadPipelineAdapter {
+        // Close the read end before the commands are waited for, so that
+        // ones still producing output are not blocked forever.
+        fn drop(&mut self) {
+            let last = self.0.last_mut().unwrap();
+            last.stdout.take();
         }
     }
 
